@@ -128,6 +128,9 @@ partial def pTy : P Ty
   | "dict" :: r => do let (a, r) ← pTy r; let (b, r) ← pTy r; pure (.dict a b, r)
   | "spec" :: r => do let (c, r) ← pNat r; pure (.spec c, r)
   | "valid" :: r => do let (p, r) ← pNat r; let (b, r) ← pTy r; pure (.valid b p, r)
+  | "mseq" :: r => do let (a, r) ← pTy r; pure (.mseq a, r)
+  | "mset" :: r => do let (a, r) ← pTy r; pure (.mset a, r)
+  | "mmap" :: r => do let (a, r) ← pTy r; let (b, r) ← pTy r; pure (.mmap a b, r)
   | _ => none
 
 def pTr : P (Option TrTok)
